@@ -181,7 +181,7 @@ func c11Exec(raw json.RawMessage, res *RunResult) {
 		return
 	}
 	dg := &Digest{}
-	ds.VerifSortedRange = true
+	ds.VerifSortedRange = false // Range is sorted by the library itself since the C06 fix; the real loop runs
 	ds.VerifStepHook, ds.VerifRollHook = nil, nil
 	n := len(sc.Tasks)
 
